@@ -43,7 +43,7 @@ let () = register "sdgq" (fun () ->
     | 2 -> let a = next_n () in let b = next_n () in QScc (a, b)
     | _ -> let fwd = next_bool () in let add = next_bool () in let x = next_n () in let y = next_n () in QMut (fwd, add, x, y)) in
   let ans = qrun v e c alias cache0 qs in
-  let s = List.map (function ANodes l -> "N:" ^ s_list s_n l | ABool b -> "B:" ^ s_bool b | AErr -> "E" | AUnit -> "U") ans in
+  let s = List.map (function ANodes l -> "N:" ^ s_list s_n l | ABool b -> "B:" ^ s_bool b | AErr -> "E" | AUnit -> "U" | ARefused -> "R") ans in
   Printf.printf "OK %s | %s\n" (s_bool (cond_ok v e c)) (String.concat " " s))
 
 (* dag V E topo -> ok | per node of topo: reachable_from ; nodes_reaching ; edges_from ; edges_rev_from *)
